@@ -638,6 +638,8 @@ def run(pid, tier):
                       "independent decoders ($9$ from Juniper.tla, type 7, shape patterns for $1$/$6$) are trusted; word and AS stages are off"]
     ck.model("Secrets", "Secrets.cfg", "R: lookup stays injective and only grows", workers=4)
     salts = ["TESTSALT", "", "#first-char-outside-alphabet", "Qsalt", "s_alt", "B#1", "Q_+=x", "7 days", "z\u00e9"]
+    if pid == "C07":
+        G.EXTRA_SHORT[:] = ["`Zq", "Kx`", "`Hm`"]
     traces, meta = forms_workload(ck, pid, tier, salts)
     judge(ck, pid, traces, meta, "forms")
     if pid == "C07":
